@@ -23,18 +23,24 @@ from .fam_fs import extract
 
 NAME = "det"
 
-DIMS = ["entropy", "rand", "set_order", "clock_pid", "buffers", "prehistory"]
+DIMS = ["entropy", "rand", "set_order", "clock_pid", "buffers", "prehistory", "environ"]
 BUILTIN_RESERVED = ["router", "system", "permit", "interface", "domain-search", "esp-seal", "snmp", "trunk", "neighbor"]
 
 
-def _pre_items(r, plan_words, secrets, n, plan_opts=None):
+def _pre_items(r, plan_words, secrets, n, plan_opts=None, addrs=()):
     items = []
     for _ in range(n):
         c = r.random()
         if plan_opts is not None and r.random() < 0.3:
             # an earlier run over the SAME input in this process, with other options (library use)
             o2 = dict(plan_opts)
-            o2["salt"] = GC.gen_salt(r, True)
+            if r.random() < 0.35 and plan_opts.get("ip"):
+                # same salt, other host bits / preserve lists
+                o2["hb"] = r.choice([x for x in (None, 0, 8, 16) if x != plan_opts.get("hb")])
+                if r.random() < 0.3:
+                    o2["pp"] = None if plan_opts.get("pp") else [GC.rand_net4(r)]
+            else:
+                o2["salt"] = GC.gen_salt(r, True)
             for f in ("pwd", "ip"):
                 if r.random() < 0.4:
                     o2[f] = not o2[f]
@@ -62,9 +68,14 @@ def _pre_items(r, plan_words, secrets, n, plan_opts=None):
             reserved.append(secrets[r.choice(sorted(secrets))]["a"])
         if r.random() < 0.4:
             reserved.append("qux%d" % r.randint(0, 9))
-        opts = {"pwd": r.random() < 0.6, "ip": r.random() < 0.4, "salt": GC.gen_salt(r, True),
+        opts = {"pwd": r.random() < 0.6, "ip": r.random() < 0.5, "salt": GC.gen_salt(r, True),
                 "reserved": reserved or None, "words": ["zzother", "kiwi"] if r.random() < 0.4 else None,
-                "pp": [GC.rand_net4(r)] if r.random() < 0.2 else None, "undo": False}
+                "pp": [GC.rand_net4(r)] if r.random() < 0.2 else None, "undo": False, "pa": None}
+        if opts["ip"] and addrs and r.random() < 0.5:
+            # preserves a network that contains one of the observed run's addresses
+            import ipaddress as _ip
+            a = r.choice(list(addrs))
+            opts["pa"] = [str(_ip.ip_network("%s/%d" % (_ip.IPv4Address(a), r.choice([8, 16, 24])), strict=False))]
         if not opts["ip"]:
             opts["pp"] = None
         if c < 0.45:
@@ -119,7 +130,7 @@ def generate(seed, tier="quick", mode=None, child=False, **kw):
     k2["listing_key"] = k1["listing_key"]          # listing order is part of the input here
     plan = {"family": NAME, "seed": seed, "mode": "c13", "files": files, "dirs": dirs, "secrets": secrets, "opts": o,
             "entry": r.choice(["cli", "cli", "files", "file", "io"]), "k1": k1, "k2": k2, "dims": dims, "nosalt": nosalt,
-            "pre": _pre_items(r, o["words"] or [], secrets, r.randint(1, 4), plan_opts=o),
+            "pre": _pre_items(r, o["words"] or [], secrets, r.randint(1, 4), plan_opts=o, addrs=ctx["a4"]),
             "dump": "map" if o["ip"] and r.random() < 0.5 else None,
             "child_hashseed": r.randint(1, 4_000_000_000) if child else None}
     return plan
@@ -145,6 +156,8 @@ def _knobs(plan, dims):
         k["set_key"] = k2["set_key"]
     if "clock_pid" in dims:
         k["clock"], k["pid"] = k2["clock"], k2["pid"]
+    if "environ" in dims:
+        k["environ"] = k2["environ"]
     if "buffers" in dims:
         for x in ("bufsize", "chunk", "max_read", "max_write"):
             k[x] = k2[x]
@@ -267,7 +280,7 @@ def check(plan):
         exercised = exercised or bool(words)
     if "prehistory" in dims:
         exercised = exercised or bool(plan["pre"])
-    if any(d in dims for d in ("rand", "clock_pid", "buffers")) or child is not None:
+    if any(d in dims for d in ("rand", "clock_pid", "buffers", "environ")) or child is not None:
         exercised = True
     return _res(plan, V, probes, steps, [W.public_hist(h1), {k: v for k, v in h2.items() if k in (
         "steps", "outcome", "logs", "trace", "handed", "faults", "snap")}], exercised)
